@@ -190,6 +190,14 @@ pub fn run(ctx: &Ctx) -> Report {
             }
         }
     }
+    // workloads with one LARGE shape (more than 1024 points in its last part) between small ones
+    if !cfg!(miri) {
+        for &t in &[3, 5, 28] {
+            for p in [0usize, 1] {
+                items.push((t, p, 100));
+            }
+        }
+    }
     // byte-level cuts: everywhere in the thorough tier; for three types in the quick tier
     let bytes_for = |t: i32, variant: usize| -> bool { !cfg!(miri) && (ctx.thorough || matches!(t, 3 | 1 | 31) || variant > 0) };
     let mut rep = par(ctx, items.len(), |idx, rep| {
@@ -197,14 +205,29 @@ pub fn run(ctx: &Ctx) -> Report {
         let mut r = Rng::derive(ctx.seed, &[tag("c11"), t as u64, placement as u64, variant as u64]);
         let c = Cfg::hostile(0.1, 2, 3);
         let n = if cfg!(miri) { 2 } else { r.usize_in(3, 5) };
-        let shapes: Vec<Shape> = (0..n).map(|_| gen::shape(t, &mut r, &c)).collect();
+        let shapes: Vec<Shape> = if variant >= 100 {
+            let small = Cfg::plain(2, 3);
+            let big = 1040 + 3 * placement;
+            let large = if gen::is_multipoint(t) {
+                gen::shape_exact(t, &mut r, &small, 1, big)
+            } else {
+                let a = gen::shape_exact(t, &mut r, &small, 1, 3).d();
+                let b = gen::shape_exact(t, &mut r, &small, 1, big).d();
+                crate::shapes::build_from_parts(t, &[(0, a.parts[0].clone()), (if t == 3 { 0 } else { 1 }, b.parts[0].clone())], false)
+            };
+            rep.count("workloads_with_a_large_shape", 1);
+            vec![gen::shape(t, &mut r, &small), large, gen::shape(t, &mut r, &small)]
+        } else {
+            (0..n).map(|_| gen::shape(t, &mut r, &c)).collect()
+        };
+        let n = shapes.len();
         let w = record(t, placement, &shapes);
         let byte_level = bytes_for(t, variant);
         let shp_points = crash_points(&w.shp_ops, byte_level);
         let shx_points = crash_points(&w.shx_ops, byte_level);
         // with byte-level cuts the pair space is large: every shp image x every 3rd shx image
         // (offset rotating with the shp index so that all shx images are met), all pairs otherwise
-        let stride = if byte_level && !ctx.thorough { 5 } else if byte_level { 2 } else { 1 };
+        let stride = if variant >= 100 { 7 } else if byte_level && !ctx.thorough { 5 } else if byte_level { 2 } else { 1 };
         let shx_images: Vec<Vec<u8>> = shx_points.iter().map(|&(o, k)| image(&w.shx_ops, o, k)).collect();
         let cap = n + 2;
         for (pi, &(o, k)) in shp_points.iter().enumerate() {
